@@ -211,7 +211,9 @@ func typeName(t *parser.Type) string {
 	}
 
 	if t.Annotations != nil {
-		var sb stringBuilder
+		// the caller writes the returned name through its own stringBuilder,
+		// which escapes '&': do not escape it a first time here
+		sb := stringBuilder{raw: true}
 		printAnnotation(&sb, t.Annotations)
 		name = name + sb.String()
 	}
@@ -220,10 +222,11 @@ func typeName(t *parser.Type) string {
 
 type stringBuilder struct {
 	buffer strings.Builder
+	raw    bool // do not escape '&' (the text is escaped later by an outer builder)
 }
 
 func (s *stringBuilder) writeString(str string) {
-	if strings.Contains(str, "&") {
+	if !s.raw && strings.Contains(str, "&") {
 		// 将 & 转义为 &amp;
 		str = strings.ReplaceAll(str, "&", "&amp;")
 	}
